@@ -361,3 +361,21 @@ func (r *Run) Write(minNontrivial int) int {
 	}
 	return 0
 }
+
+// Seed returns VERIF_SEED (default 1) without constructing a Run.
+func Seed() int64 {
+	if v := os.Getenv("VERIF_SEED"); v != "" {
+		if n, err := strconv.ParseInt(v, 10, 64); err == nil {
+			return n
+		}
+	}
+	return 1
+}
+
+// Tier returns "quick" or "thorough" from VERIF_TIER.
+func Tier() string {
+	if os.Getenv("VERIF_TIER") == "thorough" {
+		return "thorough"
+	}
+	return "quick"
+}
